@@ -138,8 +138,9 @@ Theorem C15_precedence_tables_agree :
 Proof. exact dsl_prec_tables_agree. Qed.
 Print Assumptions C15_precedence_tables_agree.
 
-(* ... including: 20 binary operators; prefix operators (! ~ unary - + & *) tighter than every binary and looser than the postfix
-   . ( [ ; ?: looser than every binary operator and right associative *)
+(* ... including: 20 binary operators; the prefix operators (logical and bitwise negation, unary minus and plus, reference and
+   dereference) bind tighter than every binary operator and looser than the postfix member access, call and index operators;
+   the ternary operator binds looser than every binary operator and is right associative *)
 Theorem C15_precedence_consistent : dsl_prec_consistent = true.
 Proof. exact dsl_prec_consistent_true. Qed.
 Print Assumptions C15_precedence_consistent.
